@@ -3141,3 +3141,57 @@ func c08r30(rc *core.RC) {
 		rc.Check(nested, key, fd.Pos(), "the walk along NextField stands inside a loop that goes on while the operation reached heads another embedded struct: an embedded struct that stands last in an embedded struct has its last member one level deeper, and that member's link stays nil otherwise (nil dereference in the interpreter when it is omitted)")
 	}
 }
+
+// ---- C08.R31 a program compiled for a query is kept by the cache that hands it out ----
+
+// The interpreter keeps the addresses it returns to (the caller's program, at OpInterfaceEnd and OpRecursiveEnd) only
+// as uintptr in the frame. What keeps a program alive is the cache it comes from: the type caches for ordinary
+// programs, OpcodeSet.QueryCache for a program filtered by a field query. A filtered program that is handed to the
+// interpreter without being stored has no root the collector can see once the interpreter is inside a nested frame.
+// Obligation: every store into QueryCache stands directly in the body of its function (between Lock and Unlock), under
+// no condition.
+func c08r31(rc *core.RC) {
+	p := rc.P
+	n := 0
+	for _, fd := range p.Funcs("encoder") {
+		if fd.Body == nil {
+			continue
+		}
+		info := p.Info(fd)
+		k := 0
+		ast.Inspect(fd.Body, func(m ast.Node) bool {
+			as, ok := m.(*ast.AssignStmt)
+			if !ok {
+				return true
+			}
+			for _, l := range as.Lhs {
+				ix, isIx := core.Unparen(l).(*ast.IndexExpr)
+				if !isIx {
+					continue
+				}
+				if f := core.FieldOf(info, core.Unparen(ix.X)); f == nil || f.Name() != "QueryCache" {
+					continue
+				}
+				n++
+				k++
+				rc.Touch(p.FuncName(fd))
+				key := fmt.Sprintf("%s/QueryCache-store#%d unconditional", p.FuncName(fd), k)
+				direct := false
+				for _, st := range fd.Body.List {
+					if st == ast.Stmt(as) {
+						direct = true
+					}
+				}
+				if direct {
+					rc.OK(key, as.Pos(), "every program compiled for a query is stored")
+				} else {
+					rc.Bad(key, as.Pos(), "the program compiled for a query is stored only under a condition: one that is not stored is run by the interpreter all the same, and nothing the collector can see refers to it while the interpreter is inside a nested frame (the return address in the frame is a uintptr)")
+				}
+			}
+			return true
+		})
+	}
+	if n < 1 {
+		rc.Unknown("encoder/QueryCache-stores", token.NoPos, "no store into OpcodeSet.QueryCache found")
+	}
+}
